@@ -170,7 +170,9 @@ func genName(t *rapid.T) (string, string) {
 // requested masks of plain file operations ('l' only comes with a link record and its target)
 var c16Masks = []string{"r", "w", "rw", "wc", "c", "d", "a", "ac", "wr", "k", "m", "rm", "rk", "rwk", "x", "wd", "rac"}
 
-func genC16Rec(t *rapid.T, idx int) C16Rec {
+func genC16Rec(t *rapid.T, idx int) C16Rec { return genC16RecOfClass(t, idx, "") }
+
+func genC16RecOfClass(t *rapid.T, idx int, forced string) C16Rec {
 	r := C16Rec{Fields: map[string]string{}}
 	r.State = pick(t, "state", []string{"ALLOWED", "DENIED", "AUDIT"})
 	r.Profile = pick(t, "profile", []string{"foo", "bar", "baz//sub"})
@@ -181,6 +183,9 @@ func genC16Rec(t *rapid.T, idx int) C16Rec {
 		r.Fields[k] = v
 	}
 	cls := pick(t, "class", []string{"file", "file", "file", "file", "file", "exec", "link", "cap", "net", "unix", "signal", "ptrace", "dbus", "mount", "remount", "umount", "pivotroot", "mqueue", "io_uring", "userns", "rlimit", "change_onexec"})
+	if forced != "" {
+		cls = forced
+	}
 	r.Class = cls
 	comm := fmt.Sprintf("tok%dq", idx)
 	switch cls {
@@ -196,7 +201,20 @@ func genC16Rec(t *rapid.T, idx int) C16Rec {
 		set("comm", comm)
 		m := pick(t, "mask", c16Masks)
 		set("requested_mask", m)
-		set("denied_mask", m)
+		dm := m
+		if len(m) > 1 && chance(t, "partlydenied", 3) {
+			// only part of what was requested was denied: the rule still has to cover the request
+			dm = ""
+			for i := 0; i < len(m); i++ {
+				if rapid.Bool().Draw(t, "deniedletter") {
+					dm += string(m[i])
+				}
+			}
+			if dm == "" {
+				dm = m[:1]
+			}
+		}
+		set("denied_mask", dm)
 		setUIDs(t, set)
 	case "exec":
 		name, _ := genName(t)
@@ -635,7 +653,43 @@ func genC16Case(t *rapid.T) C16Case {
 	var c C16Case
 	n := rapid.IntRange(1, 6).Draw(t, "nrec")
 	for i := 0; i < n; i++ {
-		c.Recs = append(c.Recs, genC16Rec(t, i))
+		r := genC16Rec(t, i)
+		// near-duplicate: an earlier record of the same class once more, with one field taken
+		// from the fresh one (another peer address, another signal, another mask ...): still a
+		// distinct access that some rule has to cover after merging
+		if i > 0 && chance(t, "neardup", 3) {
+			base := c.Recs[rapid.IntRange(0, i-1).Draw(t, "dupof")]
+			if base.Class == r.Class || chance(t, "sameclass", 2) {
+				if base.Class != r.Class {
+					r = genC16RecOfClass(t, i, base.Class)
+				}
+				var keys []string
+				for _, k := range r.Order {
+					if _, ok := base.Fields[k]; ok && k != "comm" && k != "pid" && k != "operation" && k != "class" && k != "profile" && k != "denied_mask" {
+						keys = append(keys, k)
+					}
+				}
+				if base.Fields["operation"] != r.Fields["operation"] || len(base.Order) != len(r.Order) {
+					keys = nil // another record shape (dbus bind vs method call, mount vs remount): fields do not mix
+				}
+				if len(keys) > 0 {
+					k := keys[rapid.IntRange(0, len(keys)-1).Draw(t, "dupfield")]
+					nr := C16Rec{Class: base.Class, State: base.State, Profile: base.Profile, Fields: map[string]string{}, Order: append([]string{}, base.Order...)}
+					for fk, fv := range base.Fields {
+						nr.Fields[fk] = fv
+					}
+					nr.Fields[k] = r.Fields[k]
+					if k == "requested_mask" {
+						if _, ok := nr.Fields["denied_mask"]; ok {
+							nr.Fields["denied_mask"] = r.Fields["denied_mask"]
+						}
+					}
+					nr.Fields["comm"] = r.Fields["comm"]
+					r = nr
+				}
+			}
+		}
+		c.Recs = append(c.Recs, r)
 	}
 	return c
 }
